@@ -155,12 +155,24 @@ def run_job(job):
             zs = np.array([unhex(t) for t in call["zs"]], dtype=float)
             params = [unhex(t) for t in call["params"]]
             try:
-                eq_numpy, integ, eqs = build_eq(lk, call["fstr"], len(params), bool(call.get("try_integration")), tmax=call.get("tmax", 5))
+                try_int = bool(call.get("try_integration"))
+                eq_numpy, integ, eqs = build_eq(lk, call["fstr"], len(params), try_int, tmax=call.get("tmax", 5))
+                try:
+                    with warnings.catch_warnings():
+                        warnings.simplefilter("ignore")
+                        mu = lk.get_pred(zs, np.atleast_1d(params), eq_numpy, integrated=integ)
+                except NameError:
+                    # the callers' protocol (test_all.main, test_all_Fisher, match): an antiderivative in terms of functions numpy
+                    # does not have (hyper, ...) raises NameError on evaluation and the function is redone without integration
+                    if not try_int:
+                        raise
+                    r["retried_without_integration"] = True
+                    eq_numpy, integ, eqs = build_eq(lk, call["fstr"], len(params), False, tmax=call.get("tmax", 5))
+                    with warnings.catch_warnings():
+                        warnings.simplefilter("ignore")
+                        mu = lk.get_pred(zs, np.atleast_1d(params), eq_numpy, integrated=integ)
                 r["integrated"] = integ
                 r["eq"] = eqs
-                with warnings.catch_warnings():
-                    warnings.simplefilter("ignore")
-                    mu = lk.get_pred(zs, np.atleast_1d(params), eq_numpy, integrated=integ)
                 r["shape"], r["mu"] = outval(mu)
                 r["exc"] = None
             except Exception as e:  # noqa: BLE001
